@@ -176,6 +176,15 @@ def main(run):
                    {"text": c["text"], "inject": c["inject"], "observation": {k: (o["second"] if cid >= 100000 else o).get(k) for k in ("class", "results", "cites", "calls")}, "disagreement": LCODES[code]},
                    "C15: %s%s — %s" % (LCODES[code], " (second call on the same engine)" if cid >= 100000 else "", c["text"].replace("\n", " | ")[:400]))
     report_reader(run, PID, mm, lambda i: byid[i]["text"])
+    # a local bound to a slice FIELD is a value of its own: when the host replaces the field afterwards (h.ShrinkSL assigns a shorter
+    # slice to h.SL), the local still is the slice it was bound to — stated here (locals holding containers are outside the Coq model)
+    h4 = lambda: inj_struct("h", sl=[4, 5, 6, 7])
+    mark = lambda x: scall(call("func", "Mark", [x]))
+    keep = block([assign(("var", "items"), "=", ("math", mvar("h.SL"))), scall(call("method", "h.ShrinkSL", [])),
+                  sforrange("k", "items", block([mark(("var", "k"))])), sforrange("j", "h.SL", block([mark(("const", kint(50)))]))])
+    stated_bad = stated_scenarios(run, PID, [("local-bound-to-a-slice-field-then-the-field-is-replaced", keep, [h4(), inj_func("Mark")],
+                                              {"class": "ok", "seq": [["ShrinkSL"], ["Mark", "0"], ["Mark", "1"], ["Mark", "2"], ["Mark", "3"], ["Mark", "50"]]})],
+                                  "a local keeps the value it was bound to when the injected field it was read from is replaced")
     # (B)
     scs = pool_scenarios(rng, run.tier)
     pobs = poolfam.run_pool([poolfam.strip(s) for s in scs])
@@ -195,7 +204,7 @@ def main(run):
     if ok:
         interp_facts_report(run, PID, bool(run.violations))
     cov = run.coverage
-    cov["discharged"] += (0 if mm or compile_fail else 1) + (0 if pm else 1)
+    cov["discharged"] += (0 if mm or compile_fail or stated_bad else 1) + (0 if pm else 1)
 
     def local_names(b):
         out = set()
